@@ -19,6 +19,8 @@
 package interpreter
 
 import (
+	"math/big"
+
 	"github.com/onflow/atree"
 
 	"github.com/onflow/cadence/common"
@@ -26,14 +28,17 @@ import (
 	"github.com/onflow/cadence/sema"
 )
 
+var inclusiveRangeIteratorOne = big.NewInt(1)
+
 type InclusiveRangeIterator struct {
 	rangeValue *CompositeValue
 	next       IntegerValue
 
+	// remaining is the number of elements which follow next
+	remaining *big.Int
+
 	// Cached values
-	stepNegative bool
-	step         IntegerValue
-	end          IntegerValue
+	step IntegerValue
 }
 
 var _ ValueIterator = &InclusiveRangeIterator{}
@@ -49,20 +54,40 @@ func NewInclusiveRangeIterator(
 	typ InclusiveRangeStaticType,
 ) *InclusiveRangeIterator {
 	startValue := getFieldAsIntegerValue(context, v, sema.InclusiveRangeTypeStartFieldName)
-
-	zeroValue := GetSmallIntegerValue(0, typ.ElementType)
 	endValue := getFieldAsIntegerValue(context, v, sema.InclusiveRangeTypeEndFieldName)
-
 	stepValue := getFieldAsIntegerValue(context, v, sema.InclusiveRangeTypeStepFieldName)
-	stepNegative := stepValue.Less(context, zeroValue)
 
 	i := &InclusiveRangeIterator{
-		rangeValue:   v,
-		stepNegative: bool(stepNegative),
-		step:         stepValue,
-		end:          endValue,
+		rangeValue: v,
+		step:       stepValue,
 	}
-	i.next = i.validate(startValue, context)
+
+	// The elements are start, start + step, ..., start + n * step,
+	// where n = (end - start) / step, rounded towards zero.
+	//
+	// The number of elements is determined up-front, using unbounded integers,
+	// instead of computing the element following the last one and comparing it to the end:
+	// when the end is close to the minimum or maximum of the element type,
+	// that addition overflows (or wraps around, for Word types).
+	// Also, the difference of end and start might not fit the element type.
+
+	step := ConvertInt(context, stepValue).BigInt
+	if step.Sign() == 0 {
+		// The constructors prevent this
+		panic(errors.NewUnreachableError())
+	}
+
+	distance := new(big.Int).Sub(
+		ConvertInt(context, endValue).BigInt,
+		ConvertInt(context, startValue).BigInt,
+	)
+
+	// If the sequence is moving away from the end, it is empty.
+	// The constructors prevent this
+	if distance.Sign() == 0 || distance.Sign() == step.Sign() {
+		i.next = startValue
+		i.remaining = distance.Quo(distance, step)
+	}
 
 	return i
 }
@@ -74,28 +99,22 @@ func (i *InclusiveRangeIterator) Next(context ValueIteratorContext) Value {
 	}
 
 	// Update the next value.
+	if i.remaining.Sign() <= 0 {
+		i.next = nil
+		return valueToReturn
+	}
+
+	i.remaining.Sub(i.remaining, inclusiveRangeIteratorOne)
+
+	// NOTE: the next value is at most the end value, the addition cannot overflow.
 	nextValueToReturn, ok := valueToReturn.Plus(context, i.step).(IntegerValue)
 	if !ok {
 		panic(errors.NewUnreachableError())
 	}
 
-	i.next = i.validate(nextValueToReturn, context)
+	i.next = nextValueToReturn
 
 	return valueToReturn
-}
-
-func (i *InclusiveRangeIterator) validate(
-	element IntegerValue,
-	context ValueIteratorContext,
-) IntegerValue {
-	// Ensure that element is within the bounds.
-	if i.stepNegative && bool(element.Less(context, i.end)) {
-		return nil
-	} else if !i.stepNegative && bool(element.Greater(context, i.end)) {
-		return nil
-	}
-
-	return element
 }
 
 func (i *InclusiveRangeIterator) HasNext(_ ValueIteratorContext) bool {
